@@ -33,6 +33,28 @@ Theorem C05_state_invariant : forall Hf fh fsize best cap persist ops st,
 Proof. exact final_inv. Qed.
 Print Assumptions C05_state_invariant.
 
+(* THE repair of F-C05-2, for ANY state (no assumption on what cache, database
+   or queue hold — entries verified against headers that were rewritten since,
+   entries written by anybody): a filter that GetCFilter returns, whether it
+   comes from the network, the cache or the database, satisfies the relation
+   for the committed headers. *)
+Theorem C05_returned_filter_verified : forall Hf fh fsize best cap persist st c f,
+  o_res (snd (get_cfilter Hf fh fsize best cap persist st c)) = RFilter f ->
+  verified Hf fh (c_blk c) f = true.
+Proof. exact get_cfilter_verified. Qed.
+Print Assumptions C05_returned_filter_verified.
+
+(* ... and a filter served locally is an entry of the cache or the database
+   that passed the check of matchesCommittedHeader (the block has a committed
+   filter header and the relation holds). *)
+Theorem C05_local_filter_was_checked : forall Hf fh fsize best cap persist st c f,
+  o_res (snd (get_cfilter Hf fh fsize best cap persist st c)) = RFilter f ->
+  o_queried (snd (get_cfilter Hf fh fsize best cap persist st c)) = false ->
+  local_ok Hf fh best c f = true /\
+  ((exists e, In e (cache st) /\ ekey e = c_blk c /\ eval e = f) \/ db_get (db st) (c_blk c) = Some f).
+Proof. exact get_cfilter_from_local. Qed.
+Print Assumptions C05_local_filter_was_checked.
+
 (* handleResponse: a response either is ignored (state unchanged,
    NoProgress) or is accepted — well-formed, for a block still awaited, and
    satisfying the relation — and then `Finished` is reported iff the pending
@@ -74,9 +96,10 @@ Print Assumptions C05_network_filter_was_verified.
 
 (* If the target was not verified — no well-formed response for it satisfies
    the relation — or the batch failed, or the hash / filter type is unknown,
-   a call that misses cache and database returns an error. *)
+   a call that finds no local entry passing the check returns an error. *)
 Theorem C05_unverified_target_is_error : forall Hf fh fsize best cap persist st c,
-  (forall e, In e (cache st) -> ekey e <> c_blk c) -> db_get (db st) (c_blk c) = None ->
+  (forall e, lru_find (cache st) (c_blk c) = Some e -> local_ok Hf fh best c (eval e) = false) ->
+  (forall f, db_get (db st) (c_blk c) = Some f -> local_ok Hf fh best c f = false) ->
   (forall r, In r (c_resps c) -> wellformed r = true -> r_blk r = c_blk c ->
              verified Hf fh (c_blk c) (r_filt r) = false)
     \/ c_verdict c <> VOk \/ c_known c = false \/ c_ftype_ok c = false ->
@@ -124,23 +147,23 @@ Print Assumptions C05_out_of_range_nobatch.
 
 (* ... and with batching (what the code really does: a request for the
    verifiable neighbours may go out) no filter is ever returned for such a
-   height (only verified neighbours are stored: C05_every_history). *)
+   height (only verified neighbours are stored: C05_every_history); without
+   batching nothing but the recency of the looked-up cache entry changes. *)
 Theorem C05_out_of_range : forall Hf fh fsize best cap persist st c,
   0 <= c_blk c < two32 -> 0 <= best < two32 ->
   c_blk c = 0 \/ best < c_blk c ->
   o_queried (snd (get_cfilter Hf fh fsize best cap persist st c)) = true ->
   is_err (o_res (snd (get_cfilter Hf fh fsize best cap persist st c))) = true /\
-  (c_batch c = 0 ->
-   cache (fst (get_cfilter Hf fh fsize best cap persist st c)) = cache st /\
-   dbq (fst (get_cfilter Hf fh fsize best cap persist st c)) = dbq st /\
-   db (fst (get_cfilter Hf fh fsize best cap persist st c)) = db st).
+  (c_batch c = 0 -> fst (get_cfilter Hf fh fsize best cap persist st c) = touched st c).
 Proof. exact get_cfilter_out_of_range. Qed.
 Print Assumptions C05_out_of_range.
 
-(* A cached or stored filter is returned without the network. *)
+(* A cached or stored filter that passes the check is returned without the
+   network. *)
 Theorem C05_local_without_network : forall Hf fh fsize best cap persist st c,
   c_ftype_ok c = true ->
-  (exists e, In e (cache st) /\ ekey e = c_blk c) \/ (exists f, db_get (db st) (c_blk c) = Some f) ->
+  (exists f, good Hf fh best c (fst (lru_get (cache st) (c_blk c))) = Some f) \/
+  (exists f, good Hf fh best c (db_get (db st) (c_blk c)) = Some f) ->
   o_queried (snd (get_cfilter Hf fh fsize best cap persist st c)) = false /\
   is_err (o_res (snd (get_cfilter Hf fh fsize best cap persist st c))) = false /\
   db (fst (get_cfilter Hf fh fsize best cap persist st c)) = db st /\
@@ -203,9 +226,22 @@ Proof. split; [repeat split; intros; contradiction | vm_compute; reflexivity]. Q
    takes its header snapshot after acquiring it, so the sequential history
    "Call A; XRewrite; Call B" is the exact semantics of that interleaving. *)
 
-(* ALWAYS, whatever was rewritten before: a filter fetched from the network
-   satisfies the relation for the headers committed at the time of the call's
-   snapshot, and so does everything the call adds to the cache. *)
+(* THE property for histories with rewrites, unconditionally (F-C05-2 is
+   repaired: no ghost flag, no hypothesis on the starting state): after ANY
+   history of calls, flushes, cache resets, purges, rewrites of the committed
+   headers, GetBlock calls and lookups overlapped by any writers, a filter that
+   a call returns — from the network, the cache or the database — satisfies
+   the relation for the headers committed NOW. *)
+Theorem C05_every_history_rewrites : forall Hf fsize cap persist ops1 o st0 c f,
+  let st := xfinal Hf fsize cap persist st0 ops1 in
+  call_of o = Some c -> o_res (snd (xstep Hf fsize cap persist st o)) = RFilter f ->
+  verified Hf (hdrs st) (c_blk c) f = true /\ hdrs (fst (xstep Hf fsize cap persist st o)) = hdrs st.
+Proof. exact every_history_rewrites. Qed.
+Print Assumptions C05_every_history_rewrites.
+
+(* A filter fetched from the network satisfies the relation for the headers
+   committed at the time of the call's snapshot, and so does everything the
+   call adds to the cache. *)
 Theorem C05_snapshot_verified : forall Hf fsize cap persist ops1 c st0 f,
   let st := xfinal Hf fsize cap persist st0 ops1 in
   let ob := snd (xstep Hf fsize cap persist st (XBase (Call c))) in
@@ -216,68 +252,74 @@ Theorem C05_snapshot_verified : forall Hf fsize cap persist ops1 c st0 f,
 Proof. exact snapshot_verified. Qed.
 Print Assumptions C05_snapshot_verified.
 
-(* REFUTED for the real code (root cause 1: nothing invalidates FilterCache /
-   FilterDB entries when filter headers are rewritten): after a rewrite, a
-   filter verified against the old headers is still returned from the cache
-   although it does not satisfy the relation for the committed headers. *)
+(* RECORD of finding F-C05-2, REFUTED for the code BEFORE the repair
+   (get_cfilter_unrepaired: local hits handed out unchecked; nothing
+   invalidates FilterCache / FilterDB entries when filter headers are
+   rewritten): with a filter cached for block 2 under headers ex_fh and the
+   headers rewritten to ex_fh2, the unrepaired lookup returns the cached
+   filter although it does not satisfy the relation; the repaired one goes to
+   the network and, unanswered, fails. *)
 Definition ex_fh2 (h : Z) : Z := if h <? 0 then 0 else 200 + h.
-Theorem C05_stale_entry_refuted :
-  exists (ops : list xop) (c : call) (f : Z),
-    let st0 := {| base := {| cache := []; db := []; dbq := [] |}; hdrs := ex_fh; xbest := 5; stale := false; envbad := false |} in
-    let st := xfinal ex_Hf (fun _ => 10) 1000 true st0 ops in
-    o_res (snd (xstep ex_Hf (fun _ => 10) 1000 true st (XBase (Call c)))) = RFilter f /\
-    verified ex_Hf (hdrs st) (c_blk c) f = false /\ stale st = true.
+Theorem C05_unrepaired_stale_entry_refuted :
+  exists (st : gstate) (c : call) (f : Z),
+    st = fst (get_cfilter ex_Hf ex_fh (fun _ => 10) 5 1000 true {| cache := []; db := []; dbq := [] |}
+                {| c_blk := 2; c_known := true; c_ftype_ok := true; c_batch := 0; c_maxbatch := 0;
+                   c_resps := [ex_r 2 101]; c_verdict := VOk |}) /\
+    o_res (snd (get_cfilter_unrepaired ex_Hf ex_fh2 (fun _ => 10) 5 1000 true st c)) = RFilter f /\
+    verified ex_Hf ex_fh2 (c_blk c) f = false /\
+    o_res (snd (get_cfilter ex_Hf ex_fh2 (fun _ => 10) 5 1000 true st c)) = RErrFetch.
 Proof.
-  exists [ XBase (Call {| c_blk := 2; c_known := true; c_ftype_ok := true; c_batch := 0; c_maxbatch := 0;
-                          c_resps := [ex_r 2 101]; c_verdict := VOk |});
-           XRewrite 5 ex_fh2 ],
-         {| c_blk := 2; c_known := true; c_ftype_ok := true; c_batch := 0; c_maxbatch := 0;
-            c_resps := []; c_verdict := VErr |}, 101.
-  vm_compute. repeat split.
+  eexists. exists {| c_blk := 2; c_known := true; c_ftype_ok := true; c_batch := 0; c_maxbatch := 0;
+                     c_resps := []; c_verdict := VOk |}, 101.
+  split; [reflexivity|]. vm_compute. repeat split.
 Qed.
-Print Assumptions C05_stale_entry_refuted.
+Print Assumptions C05_unrepaired_stale_entry_refuted.
 
-(* UNLESS: in every history with rewrites, GetBlock calls and database lookups
-   overlapped by other writers, as long as the ghost flags are clear (no
-   rewrite has invalidated an entry of cache, database or queue; the
-   overlapping writers stored verified filters only), every filter returned —
-   network, cache or database — and every filter visible in cache and database
-   satisfies the relation for the headers committed NOW. *)
-Theorem C05_every_history_unless : forall Hf fsize cap persist ops1 o st0,
-  xinv Hf st0 ->
-  let st := xfinal Hf fsize cap persist st0 ops1 in
-  stale (fst (xstep Hf fsize cap persist st o)) = false ->
-  envbad (fst (xstep Hf fsize cap persist st o)) = false ->
-  let fh' := hdrs (fst (xstep Hf fsize cap persist st o)) in
-  let ob := snd (xstep Hf fsize cap persist st o) in
-  (forall c f, call_of o = Some c -> o_res ob = RFilter f -> verified Hf fh' (c_blk c) f = true) /\
-  (forall b f, In (b, f) (o_cache ob) -> verified Hf fh' b f = true) /\
-  (forall b f, In (b, f) (o_db ob) -> verified Hf fh' b f = true).
-Proof. exact every_history_unless. Qed.
-Print Assumptions C05_every_history_unless.
+(* HEALING.  A call that had to go to the network — because nothing was stored
+   for the block, or because what was stored no longer passes the check — and
+   got its filter there has queued it for the batch writer AFTER anything
+   queued for that block before, and once the queue is persisted the database
+   holds exactly that (verified) filter for the block, whatever it held. *)
+Theorem C05_stale_entry_healed : forall Hf fsize cap persist st c f,
+  persist = true ->
+  let st1 := fst (xstep Hf fsize cap persist st (XBase (Call c))) in
+  let ob := snd (xstep Hf fsize cap persist st (XBase (Call c))) in
+  o_res ob = RFilter f -> o_queried ob = true ->
+  last_for (c_blk c) f (dbq (base st1)) /\
+  db_get (db (base (fst (xstep Hf fsize cap persist st1
+                           (XBase (Flush (Z.of_nat (length (dbq (base st1))))))))))
+         (c_blk c) = Some f.
+Proof. exact stale_entry_healed. Qed.
+Print Assumptions C05_stale_entry_healed.
 
-(* The monitors of the correspondence run accept every model trace: the core
-   monitor (old entries exempt) always, the strict one whenever the ghost
-   flags are clear at the end of the history. *)
-Theorem C05_model_holds_rewrites : forall Hf fsize cap persist strict ops st sv i,
+(* ... and every accepted response puts its filter at the front of the cache
+   in place of whatever the cache held for the block (if it fits at all). *)
+Theorem C05_accepted_replaces_cache_entry : forall Hf fh fsize cap persist target s r,
+  accepted Hf fh s r = true -> fsize (r_filt r) <= cap ->
+  lru_find (qcache (fst (handle Hf fh fsize cap persist target s r))) (r_blk r) =
+    Some (r_blk r, r_filt r, fsize (r_filt r)).
+Proof. exact handle_heals_cache. Qed.
+Print Assumptions C05_accepted_replaces_cache_entry.
+
+(* The monitor of the correspondence run accepts every model trace with
+   rewrites, GetBlock calls and overlapped lookups, from every state. *)
+Theorem C05_model_holds_rewrites : forall Hf fsize cap persist ops st sv i,
   0 <= xbest st < two32 -> xops_wf ops ->
-  (strict = true -> stale (xfinal Hf fsize cap persist st ops) = false /\
-                    envbad (xfinal Hf fsize cap persist st ops) = false) -> xinv Hf st ->
   (forall p, In p (dbq (base st)) -> In p sv) ->
-  xfirst_bad Hf strict (hdrs st) (xbest st) i (cache_view (cache (base st))) (db (base st)) sv
+  xfirst_bad Hf (hdrs st) (xbest st) i (cache_view (cache (base st))) (db (base st)) sv
     (combine ops (xrun Hf fsize cap persist st ops)) = None.
 Proof. exact xfirst_bad_model. Qed.
 Print Assumptions C05_model_holds_rewrites.
 
 (* A retry after the committed headers were rewritten.  Whatever was asked,
    answered or failed before the rewrite — in particular a query for the very
-   same range — a filter that the retry fetches from the network satisfies the
-   relation for the REWRITTEN headers: the code keeps no header range from one
-   query to the next. *)
+   same range — a filter that the retry returns satisfies the relation for the
+   REWRITTEN headers: the code keeps no header range from one query to the
+   next, and no filter verified against the old ones is handed out. *)
 Theorem C05_retry_after_rewrite : forall Hf fsize cap persist st0 ops1 c1 nb nf c f,
   let st := xfinal Hf fsize cap persist st0 (ops1 ++ [XBase (Call c1); XRewrite nb nf]) in
   let ob := snd (xstep Hf fsize cap persist st (XBase (Call c))) in
-  o_res ob = RFilter f -> o_queried ob = true -> verified Hf nf (c_blk c) f = true.
+  o_res ob = RFilter f -> verified Hf nf (c_blk c) f = true.
 Proof. exact retry_after_rewrite. Qed.
 Print Assumptions C05_retry_after_rewrite.
 
@@ -300,14 +342,16 @@ Proof. exact getblock_transparent. Qed.
 Print Assumptions C05_getblock_transparent.
 
 (* ------------------------------------------------------------------ *)
-(* The database read has SNAPSHOT semantics.  A lookup answered by the filter
+(* The database read has SNAPSHOT semantics.  A lookup that reaches the filter
    database while other writers commit after its read transaction has ended
-   (XCallW c w: any puts w, in any number of commits) returns the value that
+   (XCallW c w: any puts w, in any number of commits) works on the value that
    was stored under the block when the lookup ran — the first component of
-   the two-phase read db_fetch — without the network, changes neither cache
-   nor queue; the database afterwards is the old one plus exactly the
-   writers' puts, and if they wrote OTHER keys only, the returned filter still
-   is what the database holds for the block. *)
+   the two-phase read db_fetch: if that value passes the check it is returned,
+   without the network, cache and queue unchanged; if it does not, it is not
+   returned from the database (a filter can then only come from the network).
+   The database afterwards is the old one plus exactly the writers' puts,
+   and if they wrote OTHER keys only, it still holds that value for the
+   block. *)
 Theorem C05_db_read_is_snapshot : forall Hf fsize cap persist st c w f,
   c_ftype_ok c = true ->
   (forall e, In e (cache (base st)) -> ekey e <> c_blk c) ->
@@ -315,8 +359,11 @@ Theorem C05_db_read_is_snapshot : forall Hf fsize cap persist st c w f,
   let st' := fst (xstep Hf fsize cap persist st (XCallW c w)) in
   let ob := snd (xstep Hf fsize cap persist st (XCallW c w)) in
   fst (db_fetch (db (base st)) (c_blk c) w) = Some f /\
-  o_res ob = RFilter f /\ o_queried ob = false /\
-  cache (base st') = cache (base st) /\ dbq (base st') = dbq (base st) /\
+  (local_ok Hf (hdrs st) (xbest st) c f = true ->
+     o_res ob = RFilter f /\ o_queried ob = false /\
+     cache (base st') = cache (base st) /\ dbq (base st') = dbq (base st)) /\
+  (local_ok Hf (hdrs st) (xbest st) c f = false ->
+     forall f', o_res ob = RFilter f' -> o_queried ob = true) /\
   db (base st') = db_put_all (db (base st)) w /\
   (~ In (c_blk c) (map fst w) -> db_get (db (base st')) (c_blk c) = Some f).
 Proof. exact db_read_snapshot. Qed.
@@ -330,8 +377,8 @@ Print Assumptions C05_db_other_keys_untouched.
 
 (* Whatever the overlapping writers store, even under the SAME key, in every
    state and for every outcome of the call (cache hit, database hit, network,
-   error): result, request, progress reports, cache, queue, headers and the
-   stale flag are those of the undisturbed call; only the database differs,
+   error): result, request, progress reports, cache, queue and headers are
+   those of the undisturbed call; only the database differs,
    by exactly the writers' puts, and only if a read transaction was opened. *)
 Theorem C05_write_window_only_changes_db : forall Hf fsize cap persist st c w,
   let sw := xstep Hf fsize cap persist st (XCallW c w) in
@@ -340,30 +387,42 @@ Theorem C05_write_window_only_changes_db : forall Hf fsize cap persist st c w,
   o_range (snd sw) = o_range (snd s0) /\ o_prog (snd sw) = o_prog (snd s0) /\
   o_cache (snd sw) = o_cache (snd s0) /\
   cache (base (fst sw)) = cache (base (fst s0)) /\ dbq (base (fst sw)) = dbq (base (fst s0)) /\
-  hdrs (fst sw) = hdrs (fst s0) /\ xbest (fst sw) = xbest (fst s0) /\ stale (fst sw) = stale (fst s0) /\
-  db (base (fst sw)) = (if read_window (base st) c then db_put_all (db (base st)) w else db (base st)).
+  hdrs (fst sw) = hdrs (fst s0) /\ xbest (fst sw) = xbest (fst s0) /\
+  db (base (fst sw)) = (if read_window Hf (hdrs st) (xbest st) (base st) c
+                        then db_put_all (db (base st)) w else db (base st)).
 Proof. exact write_window_only_changes_db. Qed.
 Print Assumptions C05_write_window_only_changes_db.
 
-(* Non-vacuity of the new operations (ex_Hf / ex_fh as above, best 5): block 2
-   fetched and persisted; cache reset; GetBlock(2) changes nothing; block 2 is
-   read from the database while writers store blocks 3 and 4 (and overwrite 3
-   again) after the read transaction: filter 101 is returned, the database
-   then holds all three; block 3 from the database. *)
+(* Non-vacuity of the new operations and of the repair (ex_Hf / ex_fh as above,
+   best 5): block 2 fetched and persisted; cache reset; GetBlock(2) changes
+   nothing; block 2 is read from the database while writers store blocks 3
+   and 4 (and overwrite 3 again) after the read transaction: filter 101 is
+   returned, the database then holds all three; block 3 from the database.
+   Then the headers are rewritten (ex_fh2): block 2, still stored with filter
+   101, is NOT served from the database — the unanswered query fails, the
+   answered one returns the filter 201 that matches the rewritten headers; after
+   the flush the database holds 201 for block 2, and a lookup after a cache
+   reset returns it from there. *)
 Example C05_overlap_nonvacuous :
-  let st0 := {| base := {| cache := []; db := []; dbq := [] |}; hdrs := ex_fh; xbest := 5;
-                stale := false; envbad := false |} in
+  let st0 := {| base := {| cache := []; db := []; dbq := [] |}; hdrs := ex_fh; xbest := 5 |} in
   let call b rs := {| c_blk := b; c_known := true; c_ftype_ok := true; c_batch := 0; c_maxbatch := 0;
                       c_resps := rs; c_verdict := VOk |} in
   let ops := [ XBase (Call (call 2 [ex_r 2 101])); XBase (Flush 10); XBase DropCache; XGetBlock 2;
-               XCallW (call 2 []) [(3, 102); (4, 103); (3, 102)]; XBase (Call (call 3 [])) ] in
+               XCallW (call 2 []) [(3, 102); (4, 103); (3, 102)]; XBase (Call (call 3 []));
+               XRewrite 5 ex_fh2;
+               XBase (Call (call 2 [])); XBase (Call (call 2 [ex_r 2 101; ex_r 2 201])); XBase (Flush 10);
+               XBase DropCache; XBase (Call (call 2 [])) ] in
   map (fun o => (o_res o, o_queried o, o_cache o, o_db o)) (xrun ex_Hf (fun _ => 10) 1000 true st0 ops) =
   [ (RFilter 101, true, [(2, 101)], []);
     (RNone, false, [(2, 101)], [(2, 101)]);
     (RNone, false, [], [(2, 101)]);
     (RNone, false, [], [(2, 101)]);
     (RFilter 101, false, [], [(3, 102); (4, 103); (2, 101)]);
-    (RFilter 102, false, [], [(3, 102); (4, 103); (2, 101)]) ] /\
-  stale (xfinal ex_Hf (fun _ => 10) 1000 true st0 ops) = false /\
-  envbad (xfinal ex_Hf (fun _ => 10) 1000 true st0 ops) = false.
-Proof. vm_compute. repeat split. Qed.
+    (RFilter 102, false, [], [(3, 102); (4, 103); (2, 101)]);
+    (RNone, false, [], [(3, 102); (4, 103); (2, 101)]);
+    (RErrFetch, true, [], [(3, 102); (4, 103); (2, 101)]);
+    (RFilter 201, true, [(2, 201)], [(3, 102); (4, 103); (2, 101)]);
+    (RNone, false, [(2, 201)], [(2, 201); (3, 102); (4, 103)]);
+    (RNone, false, [], [(2, 201); (3, 102); (4, 103)]);
+    (RFilter 201, false, [], [(2, 201); (3, 102); (4, 103)]) ].
+Proof. vm_compute. reflexivity. Qed.
